@@ -3,5 +3,10 @@
 J=${1:-5}
 ALL="C01 C02 C03 C04 C05 C06 C07 C08 C09 C10 C11 C12 C13 C14 C15 C16 C17 C18 C19 C20"
 rm -rf /tmp/seedmatrix; mkdir -p /tmp/seedmatrix
+# MATRIX_OWN=1: run only the check of the property each change was seeded for (the "also reported by" column is then taken from the recorded verdicts in meta.json)
+if [ "${MATRIX_OWN:-0}" = 1 ]; then
+ls -d /verif/seeded/C*/ | xargs -P $J -I{} sh -c 'n=$(basename {}); p=${n%-*}; VOI_BIN=${VOI_BIN:-/verif/bin/voicheck-frozen} VOI_MEM_KB=14000000 MUT_BUILD=0 MUT_LINES=1 /verif/tools/runmut.sh {}patch.diff $p > /tmp/seedmatrix/$n.txt 2>&1'
+else
 ls -d /verif/seeded/C*/ | xargs -P $J -I{} sh -c 'n=$(basename {}); VOI_BIN=${VOI_BIN:-/verif/bin/voicheck-frozen} VOI_MEM_KB=14000000 MUT_BUILD=0 MUT_LINES=1 /verif/tools/runmut.sh {}patch.diff '"$ALL"' > /tmp/seedmatrix/$n.txt 2>&1'
+fi
 python3 /verif/tools/seedmatrix.py
